@@ -539,7 +539,8 @@ Inductive qx :=
 | XCompress (a : qx)                      (* a.compress() *)
 | XCtor (a : qx)                          (* QobjEvo(a): copy and compress *)
 | XArgs (a : qx) (n : Args)               (* QobjEvo(a, args=n), a(t, **n): copy + arguments(n) + compress *)
-| XArguments (a : qx) (n : Args).         (* b = a.copy(); b.arguments(n) *)
+| XArguments (a : qx) (n : Args)          (* b = a.copy(); b.arguments(n) *)
+| XCopy (a : qx).                         (* a.copy() = QobjEvo(a, compress=False); pickle.loads(pickle.dumps(a)) *)
 
 Definition read_item (p : Mm * option coef) : elem :=
   match snd p with None => Const (fst p) | Some c => Evo (fst p) c end.
@@ -570,6 +571,7 @@ Fixpoint build_with (x : qx) : qevo :=
   | XCtor a => compress (build_with a)
   | XArgs a n => compress (map (ereplace n) (build_with a))
   | XArguments a n => map (ereplace n) (build_with a)
+  | XCopy a => build_with a
   end.
 End Build.
 
@@ -614,6 +616,7 @@ Fixpoint semo (ov : option Args) (x : qx) (t : T) : Mm :=
       semo (Some (match ov with None => n | Some m => amerge A T n m end)) a t
   | XArguments a n =>
       semo (Some (match ov with None => n | Some m => amerge A T n m end)) a t
+  | XCopy a => semo ov a t
   end.
 
 (* the same combination applied to the constituents' values at t *)
@@ -630,8 +633,54 @@ Fixpoint wfx (x : qx) : Prop :=
   | XAdd a b | XSub a b | XMatmul a b => wfx a /\ wfx b
   | XLinMap f a => tr_ok f /\ tr_anti f = false /\ wfx a
   | XMulCoef a c => coef_ok c /\ wfx a
-  | XAddQ a _ | XAddNum a _ | XMulNum a _ | XMatmulQ a _ | XArgs a _ | XArguments a _
+  | XAddQ a _ | XAddNum a _ | XMulNum a _ | XMatmulQ a _ | XArgs a _ | XArguments a _ | XCopy a
   | XRmatmulQ _ a | XNeg a | XTrans a | XConj a | XDag a | XCompress a | XCtor a => wfx a
+  end.
+
+(* ---------------------------------------------------------------------- *)
+(* Derived constructions of superoperator.py / tensor.py on QobjEvo, as the
+   compositions of QobjEvo operations the source performs.  [fpre], [fpost],
+   [fl], [fr] are the Qobj-level maps handed to QobjEvo.linear_map (spre, spost,
+   tensor(., 1), tensor(1, .)); [mi] is the scalar -1j and [h] the scalar 0.5. *)
+Definition x_sprepost (fpre fpost : tr) (a b : qx) : qx :=      (* spre(A) * spost(B) *)
+  XMatmul (XLinMap fpre a) (XLinMap fpost b).
+Definition x_liouvillian0 (fpre fpost : tr) (mi : Cc) (H : qx) : qx :=
+  XMulNum (XSub (XLinMap fpre H) (XLinMap fpost H)) mi.        (* -1.0j * (spre(H) - spost(H)) *)
+Definition x_dissipator (fpre fpost : tr) (h : Cc) (a b : qx) : qx :=
+  let adb := XMatmul (XDag a) b in                              (* ad_b = a.dag() * b *)
+  XSub (XSub (x_sprepost fpre fpost a (XDag b))                 (* spre(a) * spost(b.dag()) *)
+             (XMulNum (XLinMap fpre adb) h))                    (* - 0.5 * spre(ad_b) *)
+       (XMulNum (XLinMap fpost adb) h).                         (* - 0.5 * spost(ad_b) *)
+(* sum(D_1, .., D_k) = ((0 + D_1) + D_2) + ..; 0 + D goes through __radd__ and
+   appends the constant term 0 * identity; sum([]) is the number 0 *)
+Definition x_sum (ds : list qx) (L : qx) : qx :=               (* L += sum(ds) *)
+  match ds with
+  | [] => XAddNum L (c0 A)
+  | d :: r => XAdd L (fold_left XAdd r (XAddNum d (c0 A)))
+  end.
+Definition x_liouvillian (fpre fpost : tr) (mi h : Cc) (H : qx) (cs : list qx) : qx :=
+  x_sum (map (fun c => x_dissipator fpre fpost h c c) cs) (x_liouvillian0 fpre fpost mi H).
+(* tensor(A, B) = A.linear_map(tensor(., 1)) @ B.linear_map(tensor(1, .)) *)
+Definition x_tensor (fl fr : tr) (a b : qx) : qx := XMatmul (XLinMap fl a) (XLinMap fr b).
+
+(* what those constructions must evaluate to, on the operands' values *)
+Definition neg1 : Cc := copp A (c1 A).
+Definition sub_val (x y : Mm) : Mm := madd A x (mscale A neg1 y).
+Definition diss_val (fpre fpost : tr) (h : Cc) (a b : Mm) : Mm :=
+  let adb := mmul A (mdag A a) b in
+  sub_val (sub_val (mmul A (tr_sem fpre a) (tr_sem fpost (mdag A b)))
+                   (mscale A h (tr_sem fpre adb)))
+          (mscale A h (tr_sem fpost adb)).
+Definition lio0_val (fpre fpost : tr) (mi : Cc) (x : Mm) : Mm :=
+  mscale A mi (sub_val (tr_sem fpre x) (tr_sem fpost x)).
+Definition zero_term : Mm := mscale A (c0 A) (mI A).
+Definition lio_val (fpre fpost : tr) (mi h : Cc) (x : Mm) (cs : list Mm) : Mm :=
+  match cs with
+  | [] => madd A (lio0_val fpre fpost mi x) zero_term
+  | c :: r =>
+      madd A (lio0_val fpre fpost mi x)
+           (fold_left (fun acc d => madd A acc (diss_val fpre fpost h d d)) r
+                      (madd A (diss_val fpre fpost h c c) zero_term))
   end.
 
 (* element class names, to compare with type(e).__name__ *)
@@ -664,7 +713,7 @@ Arguments XAdd {A T}. Arguments XSub {A T}. Arguments XAddQ {A T}. Arguments XAd
 Arguments XMulNum {A T}. Arguments XMulCoef {A T}. Arguments XMatmul {A T}.
 Arguments XMatmulQ {A T}. Arguments XRmatmulQ {A T}. Arguments XNeg {A T}.
 Arguments XTrans {A T}. Arguments XConj {A T}. Arguments XDag {A T}. Arguments XLinMap {A T}.
-Arguments XCompress {A T}. Arguments XCtor {A T}. Arguments XArgs {A T}. Arguments XArguments {A T}.
+Arguments XCompress {A T}. Arguments XCtor {A T}. Arguments XArgs {A T}. Arguments XArguments {A T}. Arguments XCopy {A T}.
 Arguments Build_inter {A T}. Arguments igrid {A T}. Arguments ipoly {A T}.
 
 (* ---------------------------------------------------------------------- *)
